@@ -34,7 +34,10 @@ func execC08Inner(c Case) string {
 		err := jsonpb.Unmarshal(bytes.NewReader(unhx(c.Args[0])), &msg)
 		// the streaming entry point must treat the same document the same way
 		var msg2 pb.GetBlockResponse
-		err2 := jsonpb.UnmarshalNext(json.NewDecoder(bytes.NewReader(unhx(c.Args[0]))), &msg2)
+		// (like for like: the package-level Unmarshal allows unknown fields, the package-level UnmarshalNext does not)
+		err2 := (&jsonpb.Unmarshaler{AllowUnknownFields: true}).UnmarshalNext(json.NewDecoder(bytes.NewReader(unhx(c.Args[0]))), &msg2)
+		var msg3 pb.GetBlockResponse
+		jsonpb.UnmarshalNext(json.NewDecoder(bytes.NewReader(unhx(c.Args[0]))), &msg3) // the strict entry point: must not panic either
 		if (err == nil) != (err2 == nil) {
 			return "unmarshal/unmarshalnext disagree"
 		}
